@@ -25,13 +25,13 @@ func vworkload(db *DB, mo *vmodel, keys []string, tag string, n int, drain bool)
 		var ops []op
 		for j := 0; j < nops; j++ {
 			o := op{k: keys[vf.Choose("key", 0, len(keys)-1)]}
-			switch vf.Choose("kind", 0, 2) {
+			switch vf.Choose("kind", 0, vf.Param("KINDS", 2)-1) {
 			case 0:
 				o.v = []byte{vf.Byte(fmt.Sprintf("%sv%d_%d", tag, i, j))}
 			case 1:
-				o.v = []byte{} // empty value
-			default:
 				o.del = true
+			default:
+				o.v = []byte{} // empty value
 			}
 			ops = append(ops, o)
 		}
